@@ -442,6 +442,39 @@ def run(only=None):
         s.extra["messages"] = len(msgs)
         s.done()
 
+    if want("encode_decode_again_after_caller_used_result"):
+        s = rep.sub("encode_decode_again_after_caller_used_result",
+                    "weight <= 1 messages + complements + seed words: encode, scribble on the returned bitarray, encode again; decode "
+                    "(with 0 and 1 error, repair on), scribble on the returned bitarray, decode again")
+        msgs = spaces.small_scope_messages(K, 1, extra=[env.det_bits(f"c02-again-{i}", K) for i in range(4)])
+        for m in msgs:
+            case = {"message": m}
+            try:
+                first = BPTC19696.encode(bitarray(m))
+                snap = first.to01()
+                first.invert()
+                first.extend("1011")
+                again = BPTC19696.encode(bitarray(m))
+                if again.to01() != snap:
+                    s.violation("second_encode_differs_after_caller_wrote_first_result", {**case, "len_again": len(again)},
+                                "encoding the same message again gives other bits once the caller has modified the first result")
+                again.invert()
+                for flips in ((), (17,)):
+                    rx = bitarray(snap)
+                    for i in flips:
+                        rx.invert(i)
+                    d1 = BPTC19696.deinterleave_data_bits(bitarray(rx), True)
+                    dsnap = d1.to01()
+                    d1.invert()
+                    d2 = BPTC19696.deinterleave_data_bits(bitarray(rx), True)
+                    if d2.to01() != dsnap or dsnap != m:
+                        s.violation("second_decode_differs_after_caller_wrote_first_result", {**case, "flipped": list(flips)})
+                    d2.invert()
+            except Exception as e:
+                s.violation("exception_encode_again:" + exc_sig(e), case, repr(e))
+            s.case(nontrivial=True, calls=6, outcome="ok", sample=case if len(s.samples) < 1 else None)
+        s.done()
+
     rep.bounds = {
         "error_patterns": "all of weight <= 2 over 196 bits (19307)",
         "base_words": f"{len(BASES)} (0, 1..1" + (", 96 unit messages" if rep.thorough() else "") + ", seed-chosen)",
